@@ -219,9 +219,7 @@ func runPair(a pairA, b pairB, hit cpHit, failWrite bool, oracles oracleSet) pai
 	}
 	out.probs = append(out.probs, r.judge(oracles, true)...)
 	if oracles.closeRules {
-		if leaks := goroutineLeaks(); len(leaks) > 0 {
-			out.probs = append(out.probs, rigProblem{"goroutine-leak", "goroutine-leak", fmt.Sprint(leaks)})
-		}
+		out.probs = append(out.probs, r.closeAccounting()...)
 	}
 	out.sig = r.w.Signature()
 
@@ -533,12 +531,7 @@ func runStress(seed uint64, idx int64, cfg stressCfg, oracles oracleSet) stressR
 	}
 	res.probs = append(res.probs, r.judge(oracles, true)...)
 	if oracles.closeRules {
-		if leaks := goroutineLeaks(); len(leaks) > 0 {
-			res.probs = append(res.probs, rigProblem{"goroutine-leak", "goroutine-leak", fmt.Sprint(leaks)})
-		}
-		if n := atomic.LoadInt32(&r.conn.CloseCalls); (cfg.opts.noConnClose && n != 0) || (!cfg.opts.noConnClose && n != 1) {
-			res.probs = append(res.probs, rigProblem{"conn-close-count", "conn-close-count", fmt.Sprintf("connection closed %d times (no-conn-close=%v)", n, cfg.opts.noConnClose)})
-		}
+		res.probs = append(res.probs, r.closeAccounting()...)
 	}
 	res.sig = r.w.Signature()
 	res.cps = r.w.CPCount()
